@@ -13,6 +13,7 @@ import (
 	"github.com/glebziz/fs_db/verifh/dbh"
 	"github.com/glebziz/fs_db/verifh/enum"
 	"github.com/glebziz/fs_db/verifh/seq"
+	"github.com/glebziz/fs_db/verifh/small"
 	"github.com/glebziz/fs_db/verifh/hk"
 	"github.com/glebziz/fs_db/verifh/litmus"
 )
@@ -62,6 +63,11 @@ func main() {
 			if o.Mismatch != nil {
 				fmt.Printf("case %d: %s\n   %s\n", i, o.Mismatch.Sig, o.Mismatch.What)
 			}
+		}
+	case "mkfixture":
+		if err := small.MakeFixture(os.Args[2]); err != nil {
+			fmt.Fprintln(os.Stderr, "mkfixture:", err)
+			os.Exit(3)
 		}
 	case "crashchild":
 		crash.ChildMain(os.Args[2])
